@@ -630,12 +630,6 @@ Proof.
   apply IH; [now rewrite step_qos|exact Ht].
 Qed.
 
-Lemma run_from_app ops1 : forall r ops2, run_from r (ops1 ++ ops2) = run_from (run_from r ops1) ops2.
-Proof.
-  induction ops1 as [|o ops1 IH]; intros r ops2; [reflexivity|].
-  cbn [app]. rewrite !run_from_cons. apply IH.
-Qed.
-
 (* 3. with KEEP_ALL and no take, whatever any read of the history returned is (the
    instance, timestamp and payload of) a sample of the final cache; with
    stored_separated: any two different samples ever presented are separated *)
